@@ -9,13 +9,49 @@ import gen_C07
 import linsys_common as lc
 from linsys_common import CQ, cq_matrix, cq_op, cq_solve, cq_mul, cq_sub, cq_inverse, coq_cmat, coq_check_solve, scale_of
 
-HEADER = lc.CQ_HEADER.replace('Base.CQMat.', 'Base.CQMat Model.LinModsExec.')
+HEADER = lc.CQ_HEADER.replace('Base.CQMat.', 'Base.CQMat Model.LinModsExec Model.LinDtype.')
 TOL = 1e-9
 REL = Fraction(1, 10 ** 9)
+
+# every storage a matrix signal can arrive in: dense ndarray and every scipy.sparse format (matrix and array flavour)
+STORES = {'dense': lambda A: A, 'csc': sps.csc_matrix, 'csr': sps.csr_matrix, 'coo': sps.coo_matrix, 'lil': sps.lil_matrix,
+          'dok': sps.dok_matrix, 'bsr': sps.bsr_matrix, 'dia': sps.dia_matrix, 'csc_array': sps.csc_array,
+          'csr_array': sps.csr_array, 'coo_array': sps.coo_array, 'lil_array': sps.lil_array, 'dok_array': sps.dok_array,
+          'bsr_array': sps.bsr_array, 'dia_array': sps.dia_array}
+CORE = ('dense', 'csc', 'csr')
+# formats every module answers for on the pinned tree (the others raise a loud format error in scipy / the module):
+# a format listed here must be answered; a format not listed must be answered CORRECTLY or refused with an exception
+ACCEPTED = {
+    'LinSolve': set(STORES) - {'dok', 'dok_array'},
+    'SystemOfEquations': {'dense', 'csc', 'csr', 'lil', 'csc_array', 'csr_array', 'coo_array', 'lil_array'},
+    'StaticCondensation': {'dense', 'csc', 'csr', 'lil', 'dok', 'csc_array', 'csr_array', 'coo_array', 'lil_array', 'dok_array'},
+    'Inverse': {'dense'},
+}
+NPDT = {'bool': np.bool_, 'int': np.int64, 'real': np.float64, 'complex': np.complex128}
+KNOWN_INT = ('LDAWrapper._do_solve_1rhs', 'work arrays hold the solution without loss (dtype at least float)',
+             'integer matrix with integer or bool right-hand side')
 
 
 def nl(idx):
     return '[' + '; '.join(str(int(i)) for i in idx) + ']%nat'
+
+
+def dcode(dt):
+    """dtype code of Model/LinDtype.v: 0 bool, 1 integer, 2 float64, 3 complex128, 9 anything else"""
+    dt = np.dtype(dt)
+    if dt.kind == 'b':
+        return 0
+    if dt.kind in 'iu':
+        return 1
+    if dt == np.float64:
+        return 2
+    if dt == np.complex128:
+        return 3
+    return 9
+
+
+def dkind(a):
+    return {0: 'bool', 1: 'int', 2: 'real', 3: 'complex'}.get(dcode(a.dtype), 'other')
 
 
 def close(a, b):
@@ -40,11 +76,24 @@ def translate(ctx):
     if not ok:
         ctx.violation('proof', 'pymoto/modules/linalg.py', 'generated _response terms equal Model/LinMods.v', 'translator/bridge',
                       dict(error=err[-3000:]), theorem='BridgeC07.LinModsBridge')
-    return ok
+    # dtype reading of the same methods: buffer dtypes, dtypes of the stored values, dtypes handed to the inner LinSolve
+    try:
+        p = ctx.write_gen('LinDtypeGen.v', gen_C07.gen_lindtype(vlib.REPO))
+        ok2, _, err = vlib.compile_file(ctx, p, 'gen:LinDtypeGen.v (pymoto/modules/linalg.py buffer / store dtypes) translates and compiles', 'translator')
+    except py2coq.Unsupported as e:
+        ok2, err = False, str(e)
+        ctx.obligation('gen:LinDtypeGen.v (pymoto/modules/linalg.py buffer / store dtypes) translates and compiles', 'translator', False, err)
+    if ok2:
+        ok2, _, err = vlib.compile_file(ctx, os.path.join(ctx.bridge_dir, 'LinDtypeBridge.v'),
+                                        'bridge:LinDtypeBridge (generated dtypes = model, stores lossless, all dtypes)', 'bridge')
+    if not ok2:
+        ctx.violation('proof', 'pymoto/modules/linalg.py', 'generated buffer / store dtypes equal Model/LinDtype.v and every store is lossless',
+                      'translator/bridge', dict(error=err[-3000:]), theorem='BridgeC07.LinDtypeBridge')
+    return ok and ok2
 
 
 def store(A, kind):
-    return A if kind == 'dense' else {'csc': sps.csc_matrix, 'csr': sps.csr_matrix}[kind](A)
+    return STORES[kind](A)
 
 
 def as_col(v):
@@ -55,23 +104,37 @@ def as_col(v):
 def run(ctx):
     warnings.simplefilter('ignore')
     import pymoto as pym
+    pym.core_objects.get_init_str = lambda: 'File "verif", line 0, in harness'   # diagnostics only (slow inspect.stack)
     S = pym.solvers
     ctx.rule = ('integer / Gaussian-integer matrices of every class (see C05) n <= 7, dense/csc/csr, plus integer FE matrices from the '
-                'real pym.AssembleGeneral with Dirichlet bc (decoupled rows/columns); LinSolve x solver overrides x rhs shapes/dtypes, '
-                'two consecutive responses; Inverse; SystemOfEquations: EVERY partition free/prescribed for n <= 4 (both index-argument '
-                'styles), random partitions n <= 7; StaticCondensation: EVERY assignment main/free/rest for n <= 4 (n <= 3 quick). '
-                'Non-trivial: n >= 2; distinct by (module, class, n, storage, partition, rhs kind, values).')
+                'real pym.AssembleGeneral with Dirichlet bc (decoupled rows/columns); LinSolve x solver overrides x rhs shapes x rhs dtypes '
+                '(int64/float64/complex128 drawn independently of the matrix dtype), two consecutive responses; Inverse; SystemOfEquations: '
+                'EVERY partition free/prescribed for n <= 4 (both index-argument styles), random partitions n <= 7, dtypes of loads and '
+                'prescribed values drawn independently; StaticCondensation: EVERY assignment main/free/rest for n <= 4 (n <= 3 quick). '
+                'DTYPE/FORMAT STRESS (deterministic, every seed): 5 fixed 4x4 matrices (real non-symmetric, real symmetric, complex '
+                'Hermitian, complex symmetric, complex general) x matrix dtype (int64/float64/complex128) x FULL cross product of operand '
+                'dtypes (SystemOfEquations: loads x prescribed values in {int64,float64,complex128}^2; LinSolve rhs in '
+                '{bool,int64,float64,complex128}) x vector/block x dense/csc/csr, and real/complex operands on all 12 other scipy.sparse '
+                'formats; Inverse and StaticCondensation on all 15 storages; output dtypes compared with Model/LinDtype.v inside Coq. '
+                'Non-trivial: n >= 2; distinct by (module, class, n, storage, partition, rhs kind, dtypes, values).')
     ctx.assumptions += ['theorems are over exact arithmetic in an arbitrary star ring; accuracy of LAPACK/SuperLU validated at 1e-9 against '
                         'the exact rational result checked inside Coq, not proved',
                         'the solver object inside LinSolve (auto_determine_solver + LDAWrapper, or the override) enters the theorems through '
-                        'its C05/C06 contract (solver_ok / ff_solver_ok), validated here by the exact comparison',
-                        'LinSolve with a real sparse matrix and complex right-hand side raises its documented TypeError (malformed stream)',
+                        'its C05/C06 contract (solver_ok / ff_solver_ok) and its dtype contract sol_ok (answer has np.result_type(matrix, rhs, float)), '
+                        'both validated here on every case',
+                        'dtypes: bool < int64 < float64 < complex128; single precision is outside (the 1e-9 accuracy cannot hold there)',
+                        'LinSolve with a real sparse matrix and complex right-hand side raises its documented TypeError (malformed stream); '
+                        'SystemOfEquations inherits it for complex loads / prescribed values',
+                        'storage formats a module refuses with an exception on the pinned tree (see ACCEPTED in tools/checks/C07.py) may be refused '
+                        'or answered correctly, never answered wrongly',
                         'matrix-class changes between consecutive responses of one module (cached flags) belong to C03/C06 and are not generated']
     ctx.trusted += ['Print Assumptions: all C07 theorems are closed under the global context (mathcomp, no axioms)',
-                    'tools/gen_C07.py (T-alg with selectors, fail-closed): A[f,:][:,p] = D_f A D_p, scatter into zero arrays = embedded sum',
+                    'tools/gen_C07.py (T-alg with selectors, fail-closed): A[f,:][:,p] = D_f A D_p, scatter into zero arrays = embedded sum; '
+                    '(T-dtype) np.result_type = least upper bound in bool < int64 < float64 < complex128, @/+/- promote, slicing keeps the dtype',
                     'exact rational reference results are computed in Python (fractions) and CHECKED inside Coq against the block equations']
     vlib.audit(ctx)
-    if not vlib.ensure_static(ctx, ['theories/Props/C07.vo', 'theories/Base/CQMat.vo', 'theories/Model/LinModsExec.vo']):
+    if not vlib.ensure_static(ctx, ['theories/Props/C07.vo', 'theories/Base/CQMat.vo', 'theories/Model/LinModsExec.vo',
+                                    'theories/Model/LinDtype.vo', 'theories/Proofs/LinDtypeP.vo']):
         return
     translate(ctx)
     vlib.check_props(ctx)
@@ -88,12 +151,29 @@ def run(ctx):
         reported.add(len(checks) - 1)
         ctx.violation('impl-violates', call_site, pred, cls, case, expected=expected, got=got)
 
+    def cast(v, kind):
+        """integer-valued array -> the requested dtype (bool: parity pattern, never all False)"""
+        v = np.asarray(v)
+        if kind == 'bool':
+            w = (np.abs(np.real(v)).astype(np.int64) % 2).astype(bool)
+            if not w.any():
+                w.flat[0] = True
+            return w
+        if kind == 'int':
+            return np.real(v).astype(np.int64)
+        return v.astype(NPDT[kind])
+
+    def dlabel(*arrs):
+        return '/'.join(dkind(a) for a in arrs)
+
     # ------------------------------------------------------------------ matrices
-    mats = []
+    mats, stress = [], []
     for c in load_corpus():
         A = np.array([[complex(*v) if isinstance(v, list) else v for v in row] for row in c['A']])
         A = A.astype(complex) if c.get('complex') else A.real.astype(float)
         mats.append((c.get('class', 'general'), A, c['name'], c))
+        if c.get('stress'):
+            stress.append((c.get('class', 'general'), A, c['name']))
     nmat = 50 if ctx.quick() else 300
     k = 0
     while len(mats) < nmat:
@@ -123,12 +203,114 @@ def run(ctx):
     m.response()
     fe.append(('fe_poisson', m.sig_out[0].state, 'AssemblePoisson1x1'))      # entries k/6: dyadic-free rationals, toleranced
 
+    # ------------------------------------------------------------------ malformed stream (exception class only)
+    err_checks, err_labels = [], []
+
+    def expect(label, fn, want):
+        try:
+            fn()
+            got = 'none'
+        except Exception as e:
+            got = lc.exc_enum(e)
+        err_checks.append(vlib.blit(got in want))
+        err_labels.append(dict(case=label, got=got, expected=want))
+        ctx.case(('malformed', label), True)
+        ctx.count('malformed')
+
+    def refused(module, stor, e):
+        """a storage format outside ACCEPTED[module] refused with an exception: allowed"""
+        ctx.count(f'{module}:format {stor} refused ({lc.exc_enum(e)})')
+
     # ------------------------------------------------------------------ LinSolve
+    def ls_run(cls, A, name, Astored, stor, ol, okw, b, bk, second=None):
+        """one LinSolve module on (Astored, b); second = (A2, A2stored, b2, description) for a second response"""
+        n = A.shape[0]
+        adt, bdt = dkind(A), dkind(b)
+        int_int = adt == 'int' and bdt in ('int', 'bool')
+        sA, sb = pym.Signal('A', Astored), pym.Signal('b', b.copy())
+        replay = dict(module='LinSolve', override=ol, storage=stor, cls=cls, A=A.tolist().__repr__(), b=b.tolist().__repr__(),
+                      dtypes=dict(A=str(A.dtype), b=str(b.dtype)))
+        ctx.count('LinSolve:' + ol)
+        ctx.count('LinSolve:storage:' + stor)
+        ctx.count(f'rhs:{bk}:{bdt}')
+        ctx.count(f'LinSolve:dtypes A/b:{adt}/{bdt}')
+        try:
+            mod = pym.LinSolve([sA, sb], **okw())
+            mod.response()
+            x = mod.sig_out[0].state
+        except Exception as e:
+            ctx.evaluations += 1
+            if stor not in ACCEPTED['LinSolve']:
+                return refused('LinSolve', stor, e)
+            if int_int:
+                ctx.violation('impl-violates', *KNOWN_INT, dict(replay, error=repr(e)))
+                return
+            ctx.violation('impl-violates', 'LinSolve._response', 'response raises for a non-singular matrix', f'{cls} matrix {stor}', dict(replay, error=repr(e)))
+            return
+        if int_int and dcode(np.asarray(x).dtype) != 2:
+            ctx.evaluations += 1
+            ctx.violation('impl-violates', *KNOWN_INT, dict(replay, got_dtype=str(np.asarray(x).dtype)))
+            return
+        A_exact = cq_matrix(A)
+        B = cq_matrix(b)
+        X = cq_solve(A_exact, B)
+        shape_ok = np.shape(x) == b.shape
+        tolq = REL * (10 ** 3 if ol == 'CG' else 1)
+        xd = np.asarray(x).dtype
+        add(('LinSolve', ol, cls, n, stor, bk, adt, bdt, name, replay),
+            (coq_check_solve(A_exact, 'N', X, B, x, tolq) if shape_ok else 'false') + f' && {vlib.blit(shape_ok)}'
+            f' && check_linsolve_dtype {dcode(A.dtype)} {dcode(b.dtype)} {dcode(xd)}', n >= 2)
+        ctx.oracle_validation['LinSolve answers with np.result_type(matrix, rhs, float)'] = \
+            ctx.oracle_validation.get('LinSolve answers with np.result_type(matrix, rhs, float)', 0) + 1
+        ctx.search_evaluations += 1
+        Af = A.astype(np.result_type(A.dtype, float))
+        if not (shape_ok and close(Af @ as_col(x), as_col(b)) if ol != 'CG' else shape_ok):
+            impl_fail('LinSolve._response', 'A x = b', f'{cls} matrix {stor}', replay, got=np.asarray(x).tolist().__repr__()[:1500])
+        elif xd != np.result_type(A.dtype, b.dtype, float):
+            impl_fail('LinSolve._response', 'x has the result type of matrix, right-hand side and float', f'{adt} matrix {stor}, {bdt} rhs', replay,
+                      expected=str(np.result_type(A.dtype, b.dtype, float)), got=str(xd))
+        if second is None:
+            return
+        # a second response of the same module: new values, same class (solver object and previous solution reused)
+        A2, A2stored, b2, desc = second
+        sA.state = A2stored
+        sb.state = b2.copy()
+        replay2 = dict(replay, second=dict(A=desc, b=b2.tolist().__repr__(), b_dtype=str(b2.dtype)))
+        ctx.count('LinSolve:second response')
+        ctx.count(f'LinSolve:second response dtypes:{bdt}->{dkind(b2)}')
+        try:
+            mod.response()
+            x2 = mod.sig_out[0].state
+        except Exception as e:
+            ctx.evaluations += 1
+            ctx.violation('impl-violates', 'LinSolve._response', 'second response raises', f'{cls} matrix {stor}', dict(replay2, error=repr(e)))
+            return
+        A2e = cq_matrix(A2)
+        B2 = cq_matrix(b2)
+        X2 = cq_solve(A2e, B2)
+        ok2 = np.shape(x2) == b2.shape
+        x2d = np.asarray(x2).dtype
+        add(('LinSolve2', ol, cls, n, stor, adt, bdt, dkind(b2), name, replay2),
+            (coq_check_solve(A2e, 'N', X2, B2, x2) if ok2 else 'false') + f' && check_linsolve_dtype {dcode(A2.dtype)} {dcode(b2.dtype)} {dcode(x2d)}', n >= 2)
+        ctx.search_evaluations += 1
+        if not (ok2 and close(A2 @ as_col(x2), as_col(b2))):
+            impl_fail('LinSolve._response', 'A x = b (second response)', f'{cls} matrix {stor}', replay2)
+        elif x2d != np.result_type(A2.dtype, b2.dtype, float):
+            impl_fail('LinSolve._response', 'x has the result type of matrix, right-hand side and float (second response)',
+                      f'{adt} matrix {stor}, {dkind(b2)} rhs after {bdt} rhs', replay2, expected=str(np.result_type(A2.dtype, b2.dtype, float)), got=str(x2d))
+
+    def rhs_kind(cplxA, sparse):
+        """dtype of a right-hand side, drawn independently of the matrix dtype (real sparse + complex rhs is the documented TypeError)"""
+        if cplxA:
+            return rng.choice(['complex', 'complex', 'real', 'int'])
+        if sparse:
+            return rng.choice(['real', 'real', 'int'])
+        return rng.choice(['real', 'real', 'real', 'int', 'complex', 'complex'])
+
     def linsolve_cases(cls, A, name, Astored, stor):
         n = A.shape[0]
         cplx = np.iscomplexobj(A)
         sparse = stor != 'dense'
-        A_exact = cq_matrix(A)
         overrides = [('auto', lambda: {})]
         if sparse:
             overrides += [('SolverSparseLU', lambda: dict(solver=S.SolverSparseLU())),
@@ -145,52 +327,17 @@ def run(ctx):
                 overrides.append(('hermitian=False', lambda: dict(hermitian=False)))
         for ol, okw in (overrides if ctx.quick() is False or n <= 4 else [overrides[0], rng.choice(overrides[1:])]):
             bk = rng.choice(['vec', 'col', 'blk', 'dup', 'wide', 'zero'] if ol != 'CG' else ['vec', 'col', 'blk'])
-            bc_ = cplx or (not sparse and rng.random() < 0.3)
-            b = lc.gen_rhs(rng, n, bk, bc_)
-            sA, sb = pym.Signal('A', Astored), pym.Signal('b', b.copy())
-            replay = dict(module='LinSolve', override=ol, storage=stor, cls=cls, A=A.tolist().__repr__(), b=b.tolist().__repr__())
-            ctx.count('LinSolve:' + ol)
-            ctx.count(f'rhs:{bk}:{"complex" if bc_ else "real"}')
-            try:
-                mod = pym.LinSolve([sA, sb], **okw())
-                mod.response()
-                x = mod.sig_out[0].state
-            except Exception as e:
-                ctx.evaluations += 1
-                ctx.violation('impl-violates', 'LinSolve._response', 'response raises for a non-singular matrix', f'{cls} matrix {stor}', dict(replay, error=repr(e)))
-                continue
-            B = cq_matrix(b)
-            X = cq_solve(A_exact, B)
-            shape_ok = np.shape(x) == b.shape
-            tolq = REL * (10 ** 3 if ol == 'CG' else 1)
-            add(('LinSolve', ol, cls, n, stor, bk, name, replay),
-                (coq_check_solve(A_exact, 'N', X, B, x, tolq) if shape_ok else 'false') + f' && {vlib.blit(shape_ok)}', n >= 2)
-            ctx.search_evaluations += 1
-            if not (shape_ok and close(A @ as_col(x), as_col(b)) if ol != 'CG' else shape_ok):
-                impl_fail('LinSolve._response', 'A x = b', f'{cls} matrix {stor}', replay, got=np.asarray(x).tolist().__repr__()[:1500])
-            # a second response of the same module: new values, same class (solver object and previous solution reused)
+            bd = rhs_kind(cplx, sparse)
+            b = lc.gen_rhs(rng, n, bk, bd == 'complex')
+            b = cast(b, bd)
+            second = None
             if rng.random() < 0.5 and ol != 'CG':
-                A2 = A * 2 if cls not in ('fe_bc', 'fe_poisson') else A * 3
-                b2 = lc.gen_rhs(rng, n, rng.choice(['vec', 'blk']), bc_)
-                sA.state = store(A2, stor) if cls not in ('fe_bc', 'fe_poisson') else (Astored * 3)
-                sb.state = b2.copy()
-                replay2 = dict(replay, second=dict(A='2*A' if cls not in ('fe_bc', 'fe_poisson') else '3*A', b=b2.tolist().__repr__()))
-                ctx.count('LinSolve:second response')
-                try:
-                    mod.response()
-                    x2 = mod.sig_out[0].state
-                except Exception as e:
-                    ctx.evaluations += 1
-                    ctx.violation('impl-violates', 'LinSolve._response', 'second response raises', f'{cls} matrix {stor}', dict(replay2, error=repr(e)))
-                    continue
-                A2e = cq_matrix(A2)
-                B2 = cq_matrix(b2)
-                X2 = cq_solve(A2e, B2)
-                ok2 = np.shape(x2) == b2.shape
-                add(('LinSolve2', ol, cls, n, stor, name, replay2), (coq_check_solve(A2e, 'N', X2, B2, x2) if ok2 else 'false'), n >= 2)
-                ctx.search_evaluations += 1
-                if not (ok2 and close(A2 @ as_col(x2), as_col(b2))):
-                    impl_fail('LinSolve._response', 'A x = b (second response)', f'{cls} matrix {stor}', replay2)
+                fem = cls in ('fe_bc', 'fe_poisson')
+                A2 = A * 3 if fem else A * 2
+                bd2 = rhs_kind(cplx, sparse)
+                b2 = cast(lc.gen_rhs(rng, n, rng.choice(['vec', 'blk']), bd2 == 'complex'), bd2)
+                second = (A2, (Astored * 3) if fem else store(A2, stor), b2, '3*A' if fem else '2*A')
+            ls_run(cls, A, name, Astored, stor, ol, okw, b, bk, second)
 
     for (cls, A, name, corp) in mats:
         ctx.count(f'class:{cls}')
@@ -206,38 +353,53 @@ def run(ctx):
     # (it is part of mats via corpus/C07; nothing else to do)
 
     # ------------------------------------------------------------------ Inverse
-    for (cls, A, name, corp) in mats:
+    def inv_case(cls, A, name, stor='dense'):
         n = A.shape[0]
         Ae = cq_matrix(A)
-        replay = dict(module='Inverse', cls=cls, A=A.tolist().__repr__())
+        replay = dict(module='Inverse', cls=cls, storage=stor, A=A.tolist().__repr__(), dtype=str(A.dtype))
         ctx.count('Inverse')
+        ctx.count(f'Inverse:{stor}:{dkind(A)}')
         try:
-            mod = pym.Inverse([pym.Signal('A', A.copy())])
+            mod = pym.Inverse([pym.Signal('A', store(A.copy(), stor))])
             mod.response()
             Bi = mod.sig_out[0].state
+            Bi = Bi.toarray() if sps.issparse(Bi) else np.asarray(Bi)
         except Exception as e:
             ctx.evaluations += 1
+            if stor not in ACCEPTED['Inverse']:
+                return refused('Inverse', stor, e)
             ctx.violation('impl-violates', 'Inverse._response', 'response raises for a non-singular matrix', f'{cls} matrix', dict(replay, error=repr(e)))
-            continue
+            return
         Bx = cq_inverse(Ae)
         ok = np.shape(Bi) == A.shape
-        add(('Inverse', cls, n, name, replay), f'check_inv {coq_cmat(Ae)} {coq_cmat(Bx)} {coq_cmat(cq_matrix(Bi)) if ok else "[]"} {vlib.qlit(REL * scale_of(Bx))}', n >= 2)
+        add(('Inverse', cls, n, stor, dkind(A), name, replay),
+            f'check_inv {coq_cmat(Ae)} {coq_cmat(Bx)} {coq_cmat(cq_matrix(Bi)) if ok else "[]"} {vlib.qlit(REL * scale_of(Bx))}'
+            f' && check_inv_dtype {dcode(A.dtype)} {dcode(Bi.dtype)}', n >= 2)
         ctx.search_evaluations += 1
-        if not (ok and close(A @ Bi, np.eye(n))):
+        if not (ok and close(A.astype(np.result_type(A.dtype, float)) @ Bi, np.eye(n))):
             impl_fail('Inverse._response', 'A B = I', f'{cls} matrix', replay)
+        elif Bi.dtype != np.result_type(A.dtype, float):
+            impl_fail('Inverse._response', 'B has the result type of the matrix and float', f'{dkind(A)} matrix {stor}', replay,
+                      expected=str(np.result_type(A.dtype, float)), got=str(Bi.dtype))
+
+    for (cls, A, name, corp) in mats:
+        inv_case(cls, A, name)
 
     # ------------------------------------------------------------------ SystemOfEquations
-    def soe_case(cls, A, name, f, p, stor, bk, cplx_rhs, style):
+    def soe_case(cls, A, name, f, p, stor, bk, dts, style, stress_case=False):
+        """dts = (dtype kind of the loads bf, dtype kind of the prescribed values xp), each in int / real / complex"""
         n = A.shape[0]
         Ae = cq_matrix(A)
         kcols = {'vec': 1, 'blk': 3}[bk]
-        cplx = cplx_rhs
 
-        def vals(m):
-            v = np.array([[complex(rng.randint(-4, 4), rng.randint(-4, 4)) if cplx else rng.randint(-4, 4) for _ in range(kcols)] for _ in range(m)])
-            v = v.astype(complex if cplx else float).reshape(m, kcols)
+        def vals(m, kind):
+            cplx = kind == 'complex'
+            v = np.array([[complex(rng.randint(-4, 4), rng.randint(-4, 4) or 1) if cplx else rng.randint(-4, 4) for _ in range(kcols)] for _ in range(m)])
+            v = cast(v.reshape(m, kcols), kind)
             return v[:, 0].copy() if bk == 'vec' else v
-        bf, xp = vals(len(f)), vals(len(p))
+        bf, xp = vals(len(f), dts[0]), vals(len(p), dts[1])
+        cplx = 'complex' in dts
+        adt = dkind(A)
         kw = dict(free=np.array(f, dtype=int), prescribed=np.array(p, dtype=int))
         if style == 'free-only':
             kw.pop('prescribed')
@@ -245,11 +407,21 @@ def run(ctx):
             kw.pop('free')
         real_dense_cplx = (not np.iscomplexobj(A)) and cplx and stor == 'dense'
         icls = 'real dense A with complex bf or xp' if real_dense_cplx else f'{cls} matrix {stor}'
+        all_int = adt == 'int' and dts == ('int', 'int')
         replay = dict(module='SystemOfEquations', cls=cls, storage=stor, A=A.tolist().__repr__(), free=list(map(int, f)), prescribed=list(map(int, p)),
-                      style=style, bf=bf.tolist().__repr__(), xp=xp.tolist().__repr__())
+                      style=style, bf=bf.tolist().__repr__(), xp=xp.tolist().__repr__(), dtypes=dict(A=str(A.dtype), bf=str(bf.dtype), xp=str(xp.dtype)))
+        if stor != 'dense' and adt != 'complex' and cplx:
+            # documented limitation of the inner LinSolve (real sparse matrix, complex right-hand side): TypeError
+            if stor in ACCEPTED['SystemOfEquations']:
+                def go():
+                    m_ = pym.SystemOfEquations([pym.Signal('A', store(A, stor)), pym.Signal('bf', bf.copy()), pym.Signal('xp', xp.copy())], **kw)
+                    m_.response()
+                expect(f'SoE {adt} {stor} matrix {name}, bf {dts[0]}, xp {dts[1]}, {bk}', go, ['TypeError'])
+            return
         ctx.count('SoE:' + stor)
         ctx.count('SoE:' + style)
         ctx.count(f'SoE:rhs:{bk}:{"complex" if cplx else "real"}')
+        ctx.count(f'SoE:dtypes A/bf/xp:{adt}/{dts[0]}/{dts[1]}')
         ctx.count(f'SoE:|p|={len(p)}')
         sA = pym.Signal('A', store(A, stor))
         try:
@@ -258,6 +430,11 @@ def run(ctx):
             x, b = [s.state for s in mod.sig_out]
         except Exception as e:
             ctx.evaluations += 1
+            if stor not in ACCEPTED['SystemOfEquations']:
+                return refused('SystemOfEquations', stor, e)
+            if all_int:
+                ctx.violation('impl-violates', *KNOWN_INT, dict(replay, error=repr(e)))
+                return
             ctx.violation('impl-violates', 'SystemOfEquations._response', 'response raises for a non-singular free block', icls, dict(replay, error=repr(e)))
             return
         # exact model output
@@ -274,23 +451,36 @@ def run(ctx):
         Bx = cq_mul(Ae, X)
         ok = np.shape(x) == (n,) + bf.shape[1:] and np.shape(b) == np.shape(x)
         tol = REL * max(scale_of(X), scale_of(Bx))
+        xdt, bdt = np.asarray(x).dtype, np.asarray(b).dtype
         if ok:
             chk = (f'check_soe {kcols} {nl(f)} {nl(p)} {coq_cmat(Ae)} {coq_cmat(BF) if f else "[]"} {coq_cmat(XP) if p else "[]"} '
-                   f'{coq_cmat(X)} {coq_cmat(Bx)} {coq_cmat(cq_matrix(x))} {coq_cmat(cq_matrix(b))} {vlib.qlit(tol)}')
+                   f'{coq_cmat(X)} {coq_cmat(Bx)} {coq_cmat(cq_matrix(x))} {coq_cmat(cq_matrix(b))} {vlib.qlit(tol)}'
+                   f' && check_soe_dtype {dcode(A.dtype)} {dcode(bf.dtype)} {dcode(xp.dtype)} {dcode(xdt)} {dcode(bdt)}')
         else:
             chk = 'false'
-        add(('SoE', cls, n, stor, tuple(f), tuple(p), bk, cplx, style, name, replay), chk, n >= 2)
+        add(('SoE', cls, n, stor, tuple(f), tuple(p), bk, adt, dts, style, name, replay), chk, n >= 2)
         # implementation-side oracle: the property text
         ctx.search_evaluations += 1
         xs, bs = as_col(x), as_col(b)
-        good = ok and close(xs[p], as_col(xp)) and close(bs[f], as_col(bf)) and close(A @ xs, bs) \
-            and (np.iscomplexobj(x) == (np.iscomplexobj(A) or cplx))
+        Af = A.astype(np.result_type(A.dtype, float))
+        good = ok and close(xs[p], as_col(xp)) and close(bs[f], as_col(bf)) and close(Af @ xs, bs)
+        want = np.result_type(A.dtype, bf.dtype, xp.dtype, float)
         if not good:
             impl_fail('SystemOfEquations._response', 'x[p] = xp, b[f] = bf, A x = b', icls, replay,
-                      got=dict(x=np.asarray(x).tolist().__repr__()[:800], b=np.asarray(b).tolist().__repr__()[:800]))
+                      got=dict(x=np.asarray(x).tolist().__repr__()[:800], b=np.asarray(b).tolist().__repr__()[:800], x_dtype=str(xdt), b_dtype=str(bdt)))
+        elif xdt != want or bdt != want:
+            impl_fail('SystemOfEquations._response', 'x and b have the result type of matrix, loads, prescribed values and float',
+                      f'{adt} matrix {stor}, {dts[0]} bf, {dts[1]} xp', replay, expected=str(want), got=dict(x=str(xdt), b=str(bdt)))
         # inputs stay untouched (fix F12)
         if sA.state.shape != A.shape:
             impl_fail('SystemOfEquations._response', 'input matrix signal untouched', icls, replay)
+
+    def soe_dts(cplxA, sparse):
+        """dtypes of loads and prescribed values, drawn independently of each other and of the matrix dtype"""
+        kinds = ['real', 'real', 'int', 'complex', 'complex'] if (cplxA or not sparse) else ['real', 'real', 'int']
+        if not cplxA and not sparse and rng.random() < 0.6:
+            kinds = ['real', 'real', 'int']
+        return (rng.choice(kinds), rng.choice(kinds))
 
     small = [(c, A, nm) for (c, A, nm, _) in mats if 2 <= A.shape[0] <= 4]
     seen_n = {}
@@ -309,12 +499,12 @@ def run(ctx):
                 continue                                    # singular free block: outside the module's domain
             cplxA = np.iscomplexobj(A)
             for stor in ('dense', 'csc'):
-                cr = cplxA or (stor == 'dense' and rng.random() < 0.25)
-                soe_case(cls, A, name, f, p, stor, rng.choice(['vec', 'blk']), cr,
+                dts = soe_dts(cplxA, stor != 'dense')
+                soe_case(cls, A, name, f, p, stor, rng.choice(['vec', 'blk']), dts,
                          rng.choice(['both', 'both', 'free-only', 'prescribed-only']) if f == sorted(f) else 'both')
-                if stor == 'dense' and not cplxA and not cr and name.startswith('F'):
+                if stor == 'dense' and not cplxA and 'complex' not in dts and name.startswith('F'):
                     # witness class of fix 92bff31 (F20): real dense A with complex loads / prescribed values
-                    soe_case(cls, A, name, f, p, stor, 'vec', True, 'both')
+                    soe_case(cls, A, name, f, p, stor, 'vec', ('complex', 'complex'), 'both')
     ctx.extra['soe_exhaustive_partitions_n_le'] = 4
     for (cls, A, name, _) in mats:
         n = A.shape[0]
@@ -325,22 +515,25 @@ def run(ctx):
             p = [i for i in range(n) if i not in f]
             if cq_solve(cq_matrix(A[np.ix_(f, f)]), cq_matrix(np.zeros(len(f)))) is None:
                 continue
-            soe_case(cls, A, name, f, p, rng.choice(['dense', 'csc', 'csr']), rng.choice(['vec', 'blk']), np.iscomplexobj(A), 'both')
+            stor = rng.choice(['dense', 'csc', 'csr'])
+            soe_case(cls, A, name, f, p, stor, rng.choice(['vec', 'blk']), soe_dts(np.iscomplexobj(A), stor != 'dense'), 'both')
     for (cls, K, name) in fe:
         A = K.toarray()
         n = A.shape[0]
         f = sorted(rng.sample(range(n), n - 2))
         p = [i for i in range(n) if i not in f]
         if cq_solve(cq_matrix(A[np.ix_(f, f)]), cq_matrix(np.zeros(len(f)))) is not None:
-            soe_case(cls, A, name, f, p, 'csc', 'vec', False, 'both')
-            soe_case(cls, A, name, f, p, 'dense', 'blk', False, 'prescribed-only')
+            soe_case(cls, A, name, f, p, 'csc', 'vec', ('real', 'real'), 'both')
+            soe_case(cls, A, name, f, p, 'dense', 'blk', ('real', 'int'), 'prescribed-only')
 
     # ------------------------------------------------------------------ StaticCondensation
     def sc_case(cls, A, name, m_, f, stor, solver_kw=None):
         n = A.shape[0]
         Ae = cq_matrix(A)
-        replay = dict(module='StaticCondensation', cls=cls, storage=stor, A=A.tolist().__repr__(), main=list(map(int, m_)), free=list(map(int, f)))
+        replay = dict(module='StaticCondensation', cls=cls, storage=stor, A=A.tolist().__repr__(), main=list(map(int, m_)), free=list(map(int, f)),
+                      dtype=str(A.dtype))
         ctx.count('SC:' + stor)
+        ctx.count(f'SC:dtype:{dkind(A)}')
         ctx.count(f'SC:|m|={len(m_)},|f|={len(f)},rest={n - len(m_) - len(f)}')
         sA = pym.Signal('A', store(A, stor))
         try:
@@ -349,6 +542,8 @@ def run(ctx):
             Ar = np.asarray(mod.sig_out[0].state.toarray() if sps.issparse(mod.sig_out[0].state) else mod.sig_out[0].state)
         except Exception as e:
             ctx.evaluations += 1
+            if stor not in ACCEPTED['StaticCondensation']:
+                return refused('StaticCondensation', stor, e)
             ctx.violation('impl-violates', 'StaticCondensation._response', 'response raises for a non-singular free block', f'{cls} matrix {stor}', dict(replay, error=repr(e)))
             return
         Aff = [[Ae[i][j] for j in f] for i in f]
@@ -358,13 +553,14 @@ def run(ctx):
         X = cq_solve(Aff, Afm)
         Ared = cq_sub(Amm, cq_mul(Amf, X))
         ok = Ar.shape == (len(m_), len(m_))
-        add(('SC', cls, n, stor, tuple(m_), tuple(f), name, replay),
-            f'check_sc {nl(m_)} {nl(f)} {coq_cmat(Ae)} {coq_cmat(X)} {coq_cmat(Ared)} {coq_cmat(cq_matrix(Ar)) if ok else "[]"} {vlib.qlit(REL * scale_of(Ared))}' if ok else 'false',
+        add(('SC', cls, n, stor, dkind(A), tuple(m_), tuple(f), name, replay),
+            (f'check_sc {nl(m_)} {nl(f)} {coq_cmat(Ae)} {coq_cmat(X)} {coq_cmat(Ared)} {coq_cmat(cq_matrix(Ar)) if ok else "[]"} {vlib.qlit(REL * scale_of(Ared))}'
+             f' && check_sc_dtype {dcode(A.dtype)} {dcode(Ar.dtype)}') if ok else 'false',
             n >= 2)
         # oracle: the condensed system reproduces the main-dof response of the full system (rest dofs fixed to zero, no load on f)
         ctx.search_evaluations += 1
         mf = list(m_) + list(f)
-        Asub = A[np.ix_(mf, mf)]
+        Asub = A[np.ix_(mf, mf)].astype(np.result_type(A.dtype, float))
         good = ok
         if ok and cq_solve(cq_matrix(Asub), cq_matrix(np.zeros(len(mf)))) is not None:
             bm = np.array([rng.randint(-4, 4) for _ in m_], dtype=float)
@@ -372,6 +568,9 @@ def run(ctx):
             good = close(Ar @ full[:len(m_)], bm.astype(Ar.dtype))
         if not good:
             impl_fail('StaticCondensation._response', 'condensed system reproduces the main-dof response', f'{cls} matrix {stor}', replay)
+        elif Ar.dtype != np.result_type(A.dtype, float):
+            impl_fail('StaticCondensation._response', 'the condensed matrix has the result type of the matrix and float', f'{dkind(A)} matrix {stor}',
+                      replay, expected=str(np.result_type(A.dtype, float)), got=str(Ar.dtype))
         if sA.state.shape != A.shape:
             impl_fail('StaticCondensation._response', 'input matrix signal untouched', f'{cls} matrix {stor}', replay)
 
@@ -412,20 +611,60 @@ def run(ctx):
         n = A.shape[0]
         sc_case(cls, A, name, [n - 1], list(range(1, n - 1)), 'csc')
 
-    # ------------------------------------------------------------------ malformed stream (exception class only)
-    err_checks, err_labels = [], []
-    A3 = np.array([[4., 1, 0], [1, 5, 2], [0, 2, 6]])
+    # ------------------------------------------------------------------ dtype / storage-format stress (deterministic, every seed)
+    # the 5 fixed matrices of corpus/C07/dtype_stress.json in every dtype they can be held in
+    variants = []
+    for (cls, A, name) in stress:
+        if np.iscomplexobj(A):
+            variants.append((cls, A, name))
+        else:
+            variants.append((cls, A.astype(np.int64), name + ':int64'))
+            variants.append((cls, A, name))
+            # complex128 storage of real values: Hermitian iff symmetric
+            variants.append(({'spd': 'hpd'}.get(cls, cls), A.astype(complex), name + ':complex128'))
+    others = [s for s in STORES if s not in CORE]
+    f_st, p_st = [0, 2], [1, 3]
+    flip = 0
+    for (cls, A, name) in variants:
+        n = A.shape[0]
+        for stor in STORES:
+            core = stor in CORE
+            sparse = stor != 'dense'
+            if not core and ctx.quick() and name.endswith(':complex128'):
+                continue
+            Ast = None
+            # LinSolve: matrix dtype x rhs dtype x vector/block
+            for bd in (('bool', 'int', 'real', 'complex') if core else ('real', 'complex')):
+                for bk in (('vec', 'blk') if core else (('vec', 'blk')[flip % 2],)):
+                    flip += 1
+                    b = cast(lc.gen_rhs(rng, n, bk, bd == 'complex'), bd)
+                    if sparse and dkind(A) != 'complex' and bd == 'complex':
+                        if stor in ACCEPTED['LinSolve']:
+                            def go(A=A, stor=stor, b=b):
+                                m_ = pym.LinSolve([pym.Signal('A', store(A, stor)), pym.Signal('b', b)])
+                                m_.response()
+                            expect(f'LinSolve {dkind(A)} {stor} matrix {name}, complex rhs {bk}', go, ['TypeError'])
+                        continue
+                    try:
+                        Ast = store(A, stor)
+                    except Exception as e:                      # scipy refuses to build the container: nothing to hand to the module
+                        refused('scipy', stor, e)
+                        break
+                    ls_run(cls, A, name, Ast, stor, 'auto', lambda: {}, b, bk)
+            # SystemOfEquations: matrix dtype x loads dtype x prescribed dtype x vector/block
+            kinds = ('int', 'real', 'complex') if core else ('real', 'complex')
+            for dts in itertools.product(kinds, kinds):
+                for bk in (('vec', 'blk') if core else (('vec', 'blk')[flip % 2],)):
+                    flip += 1
+                    soe_case(cls, A, name, f_st, p_st, stor, bk, dts, 'both', stress_case=True)
+            # StaticCondensation, Inverse: matrix dtype x storage
+            sc_case(cls, A, name, [0, 3], [1, 2], stor)
+            sc_case(cls, A, name, [2], [3, 0], stor)
+            inv_case(cls, A, name, stor)
+    ctx.extra['dtype_stress'] = dict(matrices=[v[2] for v in variants], storages=list(STORES), accepted={k: sorted(v) for k, v in ACCEPTED.items()})
 
-    def expect(label, fn, want):
-        try:
-            fn()
-            got = 'none'
-        except Exception as e:
-            got = lc.exc_enum(e)
-        err_checks.append(vlib.blit(got in want))
-        err_labels.append(dict(case=label, got=got, expected=want))
-        ctx.case(('malformed', label), True)
-        ctx.count('malformed')
+    # ------------------------------------------------------------------ malformed requests
+    A3 = np.array([[4., 1, 0], [1, 5, 2], [0, 2, 6]])
 
     def mk_ls(A, b):
         m = pym.LinSolve([pym.Signal('A', A), pym.Signal('b', b)])
@@ -450,9 +689,9 @@ def run(ctx):
         if idx in reported:
             continue
         lab = labels[idx]
-        ctx.violation('correspondence', f'{lab[0]}._response', 'outputs equal the exact model outputs (1e-9) and satisfy the block equations',
+        ctx.violation('correspondence', f'{lab[0]}._response', 'outputs equal the exact model outputs (1e-9), satisfy the block equations and have the model dtype',
                       f'{lab[1]}', dict(label=[str(v) for v in lab[:-1]], replay=lab[-1]),
-                      note='exact rational model output (checked inside Coq) and implementation differ')
+                      note='exact rational model output / model dtype (checked inside Coq) and implementation differ')
     for idx in failing2[:20]:
         ctx.violation('impl-violates', 'linalg modules', 'malformed request raises the documented exception class', 'malformed request', err_labels[idx],
                       expected=err_labels[idx]['expected'], got=err_labels[idx]['got'])
